@@ -306,7 +306,7 @@ func runFault(fc FaultCase, c *choice.Chooser) faultOutcome {
 // settleHorizon: how long after Submit returned a goroutine of the client may still be seen before
 // it is called left behind. A goroutine that is really leaked stays for ever, so waiting costs time
 // only on failing placements; one that is merely finishing is gone within microseconds.
-const settleHorizon = 4 * time.Second
+const settleHorizon = 8 * time.Second
 
 // clientGoroutines returns the stack of a goroutine that is running code of
 // go-openapi/runtime/client, "" if there is none.
@@ -378,7 +378,7 @@ func judgeFault(fc FaultCase, o faultOutcome) (string, string) {
 		return "call-never-returns", fmt.Sprintf("Submit still running after the 30 s horizon (%s)", o.desc)
 	}
 	if o.leak != "" {
-		return "goroutine-left-behind" + sfx, fmt.Sprintf("4 s after Submit returned (err=%v; %s) a goroutine still runs client code: %s", o.err, o.desc, firstLines(o.leak, 8))
+		return "goroutine-left-behind" + sfx, fmt.Sprintf("some seconds after Submit returned (err=%v; %s) a goroutine still runs client code: %s", o.err, o.desc, firstLines(o.leak, 8))
 	}
 	if len(o.unclosed) > 0 {
 		return "upload-source-not-closed" + sfx, fmt.Sprintf("sources %v never closed (err=%v; %s)", o.unclosed, o.err, o.desc)
